@@ -78,6 +78,9 @@ Z_NewYork == <<65,109,101,114,105,99,97,47,78,101,119,95,89,111,114,107>>
 Z_Paris == <<69,117,114,111,112,101,47,80,97,114,105,115>>
 Z_Sydney == <<65,117,115,116,114,97,108,105,97,47,83,121,100,110,101,121>>
 NoOffset == 100000
+\* the n-th Sunday of month m (day number), and the last Sunday of a 31-day month
+NthSunday(y, m, n) == LET d1 == DaysFromCivil(y, m, 1) IN d1 + ((7 - Weekday(d1)) % 7) + 7 * (n - 1)
+LastSunday31(y, m) == LET d31 == DaysFromCivil(y, m, 31) IN d31 - Weekday(d31)
 ZoneOffset(z, us) ==
   IF Len(z) = 6 /\ z[1] \in {43, 45} /\ AllDigits(SubSeq(z, 2, 3)) /\ z[4] = 58 /\ AllDigits(SubSeq(z, 5, 6))
   THEN (IF z[1] = 45 THEN -1 ELSE 1) * (Num(SubSeq(z, 2, 3)) * 60 + Num(SubSeq(z, 5, 6)))
@@ -87,7 +90,14 @@ ZoneOffset(z, us) ==
                ELSE CASE z = Z_Kolkata -> 330 [] z = Z_Tokyo -> 540 [] z = Z_Kathmandu -> 345 [] z = Z_Phoenix -> -420)
          [] z \in {Z_NewYork, Z_Paris, Z_Sydney} ->
               (LET f == Fields(us, 0) IN
-               IF f.y < 1990 \/ f.y > 2037 \/ f.m \notin {1, 7} \/ f.d < 3 \/ f.d > 26 THEN NoOffset
+               IF f.y >= 2008 /\ f.y <= 2037 THEN
+                    \* the zones' current daylight-saving rules, exact to the second (in force since 2007 / 1996 / 2008)
+                    LET at == <<Split(us).days, Split(us).secs>>
+                        Before(p, q) == p[1] < q[1] \/ (p[1] = q[1] /\ p[2] < q[2])
+                    IN CASE z = Z_NewYork -> (IF ~Before(at, <<NthSunday(f.y, 3, 2), 7 * 3600>>) /\ Before(at, <<NthSunday(f.y, 11, 1), 6 * 3600>>) THEN -240 ELSE -300)
+                         [] z = Z_Paris -> (IF ~Before(at, <<LastSunday31(f.y, 3), 3600>>) /\ Before(at, <<LastSunday31(f.y, 10), 3600>>) THEN 120 ELSE 60)
+                         [] z = Z_Sydney -> (IF Before(at, <<NthSunday(f.y, 4, 1) - 1, 16 * 3600>>) \/ ~Before(at, <<NthSunday(f.y, 10, 1) - 1, 16 * 3600>>) THEN 660 ELSE 600)
+               ELSE IF f.y < 1990 \/ f.y > 2037 \/ f.m \notin {1, 7} \/ f.d < 3 \/ f.d > 26 THEN NoOffset
                ELSE CASE z = Z_NewYork -> (IF f.m = 1 THEN -300 ELSE -240)
                       [] z = Z_Paris -> (IF f.m = 1 THEN 60 ELSE 120)
                       [] z = Z_Sydney -> (IF f.m = 1 THEN 660 ELSE 600))
